@@ -349,6 +349,21 @@ func scLegacyNodeTakeover(tw *hx.TraceWriter, rep *hx.Report, seed int64) {
 	w.blocks(6)
 }
 
+// (l) the relay allowance of an application is fixed when it stakes; governance then changes the
+// parameter the allowance is computed from; a transfer to a new key must carry the stake AND the
+// allowance over unchanged, an edit-stake afterwards recomputes it
+func scTransferAfterRelayParamChange(tw *hx.TraceWriter, rep *hx.Report, seed int64) {
+	w := startChain(tw, rep, baseCfg(seed), "l-transfer-after-relay-param-change")
+	w.block(blockOpts{}, w.paramInt(kOwner, "application/BaseRelaysPerPOKT", 50000))
+	r := w.block(blockOpts{}, w.appTransferTx("a4", "a11"))
+	w.note("l:transfer-after-param-change", r, 0)
+	w.block(blockOpts{}, w.paramInt(kOwner, "application/BaseRelaysPerPOKT", 300000))
+	r = w.block(blockOpts{}, w.appTransferTx("a11", "a12"), w.appTransferTx("a5", "a4"))
+	w.note("l:second-transfer", r, 0)
+	w.block(blockOpts{}, w.appStakeTx("a12", "a12", []string{"0001"}, 2500000))
+	w.blocks(2)
+}
+
 type scenario struct {
 	name string
 	run  func(tw *hx.TraceWriter, rep *hx.Report, seed int64)
@@ -363,7 +378,7 @@ func scEmpty(tw *hx.TraceWriter, rep *hx.Report, seed int64) {
 var scenarios = []scenario{
 	{"a", scUnstakePendingClaim}, {"b", scAppTransferMidSession}, {"c", scMaxValidatorsJailed}, {"d", scStakeMinimumSlash},
 	{"e", scDaoPools}, {"f", scFeeMultiplier}, {"g", scFeatureUpgrade}, {"h", scMatureAtBoundary}, {"i", scReplayBurnForceUnstake}, {"j", scWindowReopenedByGovernance},
-	{"k", scLegacyNodeTakeover},
+	{"k", scLegacyNodeTakeover}, {"l", scTransferAfterRelayParamChange},
 	{"zempty", scEmpty},
 }
 
